@@ -201,3 +201,94 @@ def stream_histories(ctx, built, count, name="S-blob"):
                 St.mismatch(case, ge[:400], e[:400])
     ctx.obligation(f"correspondence {name} (per-operation outcome and served members = Lean machine)", "correspondence", St.d["mismatches"] == 0, f"{St.d['mismatches']} mismatches")
     return St
+
+
+def stream_two_names(ctx, built, count, name="S-blob-names"):
+    """two blob names in one directory (names that differ only after a dot, share a prefix, or differ in case): builds, reader constructions and deletions on either
+    name; per operation the outcome and the members served, tagged by dataset, against the Lean store of independent blob machines"""
+    import syndiffix.synthesizer as S
+    from syndiffix import SyndiffixBlobBuilder, SyndiffixBlobReader
+    R = ctx.rng
+    St = ctx.stream(name, "histories (length 4..8) of build(dataset 1|2) / reader construction / delete on two blob names in one directory (survey.2023 / survey.2024, a.b / a.c, "
+                    "data / data2, Blob / blob, x / x.bak); outcome and served members per operation compared with the Lean store; non-trivial = both names built")
+    saved = S._get_default_salt
+    S._get_default_salt = lambda: b"12345678"
+    lines, exps, cases = [], [], []
+    try:
+        for ci in range(count):
+            names = R.choice([("survey.2023", "survey.2024"), ("a.b", "a.c"), ("data", "data2"), ("Blob", "blob"), ("x", "x.bak"), ("v1.0", "v1.1")])
+            d1 = gen_dataset(R, 1); d2 = gen_dataset(R, 2)
+            data = {1: d1, 2: d2}
+            ref = {}
+            for k, nm in enumerate(names):
+                for ds, (df, pids, _) in data.items():
+                    dd = tempfile.mkdtemp(prefix="sdxblobref")
+                    with quiet(): SyndiffixBlobBuilder(nm, dd).write(df, pids)
+                    import glob as _glob
+                    zs = _glob.glob(os.path.join(_glob.escape(dd), "*.zip"))       # wherever the builder put the archive of this name
+                    ref[(k, ds)] = members_of(zs[0]) if zs else {}; shutil.rmtree(dd)
+            directed = [[("b1", 0), ("b2", 1), ("o", 0), ("o", 1)], [("b1", 0), ("o", 1)], [("b1", 0), ("b2", 1), ("d", 1), ("o", 0), ("o", 1)]]
+            ops = directed[ci] if ci < len(directed) else [(R.choice(["b1", "b2", "o", "o", "d"]), R.randrange(2)) for _ in range(R.randint(4, 8))]
+            d = tempfile.mkdtemp(prefix="sdxblob")
+            exp = []
+            try:
+                for op, k in ops:
+                    nm = names[k]; z = os.path.join(d, nm + ".sdxblob.zip")
+                    if op in ("b1", "b2"):
+                        df, pids, _ = data[int(op[1])]
+                        with quiet(): SyndiffixBlobBuilder(nm, d).write(df, pids)
+                        exp.append("built")
+                    elif op == "o":
+                        try:
+                            with quiet(): r = SyndiffixBlobReader(nm, d)
+                            tags = []
+                            for f in os.listdir(r.path_to_blob_dir):
+                                h = hashlib.sha256(open(os.path.join(r.path_to_blob_dir, f), "rb").read()).hexdigest()[:12]; m = f.encode().hex()
+                                tag = [ds for ds in (1, 2) if ref[(k, ds)].get(m) == h]
+                                tags.append(f"{m}@{'*' if len(tag) == 2 else tag[0] if tag else '?'}")
+                            exp.append("served:" + ",".join(sorted(tags)))
+                        except Exception:
+                            exp.append("error")
+                    else:
+                        if os.path.exists(z): os.remove(z)
+                        exp.append("done")
+            finally:
+                shutil.rmtree(d, ignore_errors=True)
+            toks = []
+            for op, k in ops:
+                toks.append((f"b:{op[1]}:" + ",".join(sorted(ref[(k, int(op[1]))])) if op[0] == "b" else op) + f"@{k}")
+            lines.append("blob " + " ".join(toks)); exps.append(" ".join(exp))
+            case = {"names": names, "ops": [f"{o}@{names[k]}" for o, k in ops], "impl": exp,
+                    "ambiguous": {k: sorted(m for m in ref[(k, 1)] if ref[(k, 2)].get(m) == ref[(k, 1)][m]) for k in (0, 1)}}
+            cases.append(case); St.count((names, tuple(ops), ci), len({k for o, k in ops if o[0] == "b"}) == 2, case, tag="/".join(names))
+            last = {0: None, 1: None}
+            for (op, k), e in zip(ops, exp):
+                if op[0] == "b": last[k] = int(op[1])
+                elif op == "d": last[k] = None
+                elif e.startswith("served:"):
+                    tags = {t.rsplit("@", 1)[1] for t in e[7:].split(",") if t} - {"*"}
+                    if last[k] is None:
+                        ctx.oracle_fail(f"a reader on {names[k]!r} answered although no archive of that name exists (history {case['ops']})", case, "missing-served")
+                    elif tags - {str(last[k])}:
+                        ctx.oracle_fail(f"a reader on {names[k]!r} served members {sorted(tags)} although its archive was built from dataset {last[k]} (history {case['ops']})", case, "foreign-members")
+                elif e == "error" and last[k] is not None:
+                    ctx.oracle_fail(f"a reader on {names[k]!r} failed although its archive was built and not touched since (history {case['ops']})", case, "own-archive-lost")
+    finally:
+        S._get_default_salt = saved
+    if built:
+        got = drive(lines)
+        for l, e, g, case in zip(lines, exps, got, cases):
+            # members identical in both datasets (metadata) are tagged '*' on the implementation side
+            def canon(t, k_amb):
+                return t
+            ops_k = [int(x.rsplit("@", 1)[1]) for x in l.split(" ")[1:]]
+            ge = []
+            for t, k in zip(g.split(" "), ops_k):
+                if t.startswith("served:"):
+                    amb = set(case["ambiguous"][k])
+                    t = "served:" + ",".join(sorted((x.rsplit("@", 1)[0] + "@*") if x.rsplit("@", 1)[0] in amb else x for x in t[7:].split(",")))
+                ge.append(t)
+            if e != " ".join(ge):
+                St.mismatch(case, " ".join(ge)[:400], e[:400])
+    ctx.obligation(f"correspondence {name} (two names in one directory = independent machines)", "correspondence", St.d["mismatches"] == 0, f"{St.d['mismatches']} mismatches")
+    return St
